@@ -24,35 +24,37 @@ const (
 // Profile is the per-run swarm configuration. Everything is drawn from the
 // run's PRNG; it is recorded in the trace for information only.
 type Profile struct {
-	Name       string             `json:"name"`
-	Actors     int                `json:"actors"`
-	AddrLens   []int              `json:"addr_lens,omitempty"` // address length of the first actors (0 = 20 bytes)
-	MaxBlocks  int                `json:"max_blocks"`
-	MaxTxs     int                `json:"max_txs"`
-	MaxPerBlk  int                `json:"max_per_block"`
-	Weights    map[string]float64 `json:"weights"`
-	PStale     float64            `json:"p_stale"`
-	PNearMiss  float64            `json:"p_nearmiss"`
-	PHostile   float64            `json:"p_hostile"`
-	PGas       float64            `json:"p_gas"`
-	PBank      float64            `json:"p_bank"`
-	PMulti     float64            `json:"p_multi"`
-	PDelay     float64            `json:"p_delay"`
-	PDup       float64            `json:"p_dup"`
-	PDrop      float64            `json:"p_drop"`
-	PCrash     float64            `json:"p_crash"`
-	PTorn      float64            `json:"p_torn"`
-	PRestart   float64            `json:"p_restart"`
-	PGenesis   float64            `json:"p_genesis"`
-	PQuery     float64            `json:"p_query"`
-	PProbe     float64            `json:"p_probe"`
-	StyleRate  float64            `json:"style_rate"`
-	WideW      float64            `json:"wide_w"`
-	GenesisK   string             `json:"genesis_kind"`
-	DtMix      []float64          `json:"dt_mix"`
-	Hasher     *HasherCfg         `json:"hasher,omitempty"`
-	EndGenesis bool               `json:"end_genesis"`
-	AltSched   bool               `json:"alt_sched"`
+	Name     string `json:"name"`
+	Actors   int    `json:"actors"`
+	AddrLens []int  `json:"addr_lens,omitempty"` // address length of the first actors (0 = 20 bytes)
+	// AddrPrefixPairs: a longer address extends the bytes of another actor's 20-byte address
+	AddrPrefixPairs bool               `json:"addr_prefix_pairs,omitempty"`
+	MaxBlocks       int                `json:"max_blocks"`
+	MaxTxs          int                `json:"max_txs"`
+	MaxPerBlk       int                `json:"max_per_block"`
+	Weights         map[string]float64 `json:"weights"`
+	PStale          float64            `json:"p_stale"`
+	PNearMiss       float64            `json:"p_nearmiss"`
+	PHostile        float64            `json:"p_hostile"`
+	PGas            float64            `json:"p_gas"`
+	PBank           float64            `json:"p_bank"`
+	PMulti          float64            `json:"p_multi"`
+	PDelay          float64            `json:"p_delay"`
+	PDup            float64            `json:"p_dup"`
+	PDrop           float64            `json:"p_drop"`
+	PCrash          float64            `json:"p_crash"`
+	PTorn           float64            `json:"p_torn"`
+	PRestart        float64            `json:"p_restart"`
+	PGenesis        float64            `json:"p_genesis"`
+	PQuery          float64            `json:"p_query"`
+	PProbe          float64            `json:"p_probe"`
+	StyleRate       float64            `json:"style_rate"`
+	WideW           float64            `json:"wide_w"`
+	GenesisK        string             `json:"genesis_kind"`
+	DtMix           []float64          `json:"dt_mix"`
+	Hasher          *HasherCfg         `json:"hasher,omitempty"`
+	EndGenesis      bool               `json:"end_genesis"`
+	AltSched        bool               `json:"alt_sched"`
 	// AvoidKnown: do not generate the boundary inputs behind the open known
 	// findings (start == end batches, public resolvers) so that the run can
 	// explore past them; the other runs still generate them.
@@ -593,12 +595,26 @@ func NewGen(property string, tier string, vseed, runIdx uint64, ck Checker) (*Ge
 		acc := actorAddr(i)
 		if i < len(p.AddrLens) && p.AddrLens[i] > 0 {
 			acc = actorAddrLen(i, p.AddrLens[i])
+			if p.AddrPrefixPairs && p.AddrLens[i] > 20 && i+1 < p.Actors {
+				// this longer address starts with the 20 bytes of the next actor's address
+				acc = append(append(sdk.AccAddress{}, actorAddr(i+1)...), acc[20:]...)
+			}
 		}
 		g.Actors = append(g.Actors, &Actor{Addr: acc.String(), Acc: acc})
 	}
 	gov := sdk.AccAddress(govAddr())
 	g.Gov = &Actor{Addr: gov.String(), Acc: gov, Gov: true}
 	gen := g.buildGenesis()
+	exported := false
+	if p.GenesisK == "exported" && property != "C20" {
+		// the chain starts from the exported state of an earlier chain (an upgrade by export/import),
+		// possibly at a later genesis time: classes, batches, balances, baskets, open orders, data
+		// entries and sequences are there from block one
+		if doc := g.preHistory(gen, ChainOpts{Hasher: p.Hasher}); doc != nil {
+			gen = doc
+			exported = true
+		}
+	}
 	pj, _ := json.Marshal(p)
 	g.Trace = &Trace{Version: 1, Property: property, Seed: seed, VSeed: vseed, Run: runIdx, Tier: tier, Profile: pj, World: "chain", Hasher: p.Hasher, Genesis: gen}
 	for _, a := range g.Actors {
@@ -619,6 +635,15 @@ func NewGen(property string, tier string, vseed, runIdx uint64, ck Checker) (*Ge
 	}
 	g.W = w
 	w.Trace = g.Trace
+	if exported {
+		w.Probe("genesis_exported_from_an_earlier_chain")
+		for _, o := range w.Cur.Orders {
+			if o.Expiration != nil && !TsTime(o.Expiration).After(gen.Time) {
+				w.Probe("genesis_holds_orders_expired_before_genesis_time")
+				break
+			}
+		}
+	}
 	if p.AltSched {
 		g.altR = r.Fork()
 	}
@@ -626,3 +651,40 @@ func NewGen(property string, tier string, vseed, runIdx uint64, ck Checker) (*Ge
 }
 
 func bigStr(i *big.Int) string { return i.String() }
+
+// preHistory runs a short fault-free history on a scratch chain started from base and returns
+// its exported genesis (nil if that export is not a valid genesis: the known findings).
+func (g *Gen) preHistory(base *GenesisDoc, opts ChainOpts) *GenesisDoc {
+	w, err := NewWorld("pre", base, opts, nil)
+	if err != nil || w.Aborted {
+		return nil
+	}
+	saved := g.P
+	q := *g.P
+	q.Weights = map[string]float64{}
+	for k, v := range saved.Weights {
+		q.Weights[k] = v
+	}
+	q.MaxBlocks, q.MaxTxs, q.MaxPerBlk = g.R.Range(3, 9), g.R.Range(25, 80), g.R.Range(4, 12)
+	q.PGas, q.PBank, q.PMulti, q.PDelay, q.PDup, q.PDrop, q.PCrash, q.PTorn, q.PRestart, q.PGenesis, q.PQuery, q.PProbe = 0, 0, 0, 0, 0, 0, 0, 0, 0, 0, 0, 0
+	q.EndGenesis, q.AltSched, q.AvoidKnown, q.PStale = false, false, true, 0
+	q.DtMix = []float64{0, 0, 1, 4, 2, 1, 0.5, 0} // blocks minutes to days apart: open orders stay open
+	g.P, g.W, g.Trace = &q, w, &Trace{}
+	g.Run()
+	var doc *GenesisDoc
+	if !w.inBlock && !w.Aborted && len(w.Harness) == 0 {
+		if d, err := w.Chain.ExportGenesis(w.Chain.WorkCtx()); err == nil {
+			enc := w.Chain.Enc
+			ok := safeErr(func() error { return w.Chain.Eco.ValidateGenesis(enc.Cdc, enc.TxCfg, d.Eco) }) == nil &&
+				safeErr(func() error { return w.Chain.Dat.ValidateGenesis(enc.Cdc, enc.TxCfg, d.Data) }) == nil
+			if ok {
+				delay := Pick(g.R, []time.Duration{0, time.Second, 36 * time.Hour, 20 * 24 * time.Hour, 400 * 24 * time.Hour, 3 * 365 * 24 * time.Hour})
+				d.Time = w.LastTime.Add(delay)
+				doc = d
+			}
+		}
+	}
+	g.P, g.W, g.Trace = saved, nil, nil
+	g.mempool, g.recent, g.blk, g.txs, g.pendingProbe = nil, nil, 0, 0, false
+	return doc
+}
